@@ -455,11 +455,110 @@ impl Space {
     }
 }
 
+// -- syntax-error locations over every single-character edit of literal-rich sources -------------
+
+/// sources whose tokens have an inner structure of their own (escapes of every kind, prefixes,
+/// exponents, f-string holes): a token-level edit never cuts through them
+const LITERAL_SOURCES: [&str; 22] = [
+    r#"'\x41'"#,
+    r#""Ab""#,
+    r#"b'\x41\x42'"#,
+    r#"'a\U0001F600'"#,
+    r#"'\101'"#,
+    r#"'a\nb' + x"#,
+    r#"f'a{x}b'"#,
+    r#"f"{x + 1}""#,
+    r#"r'a\x'"#,
+    r#"'''a'b'''"#,
+    "0x1F + 1",
+    "1.5e3",
+    "2e-3 * x",
+    "10u",
+    "a.b.c",
+    "m['k']",
+    "[1, 'é']",
+    "{'k': 1.0}",
+    r#"x ? 'a' : "b""#,
+    r#"b"\X4a""#,
+    r#"'é' in s"#,
+    r#"f'{"\x41"}'"#,
+];
+const EDIT_CHARS: [char; 14] = ['\n', ' ', '\'', '"', '\\', 'x', 'u', 'g', '4', '{', '}', '(', '.', 'é'];
+
+fn char_edit_size() -> u64 {
+    LITERAL_SOURCES.len() as u64
+}
+
+fn run_char_edits(idx: u64, acc: &mut Acc) {
+    let base: Vec<char> = LITERAL_SOURCES[idx as usize].chars().collect();
+    let mut variants: Vec<(String, &'static str)> = Vec::new();
+    for i in 0..=base.len() {
+        if i < base.len() {
+            let mut v = base.clone();
+            v.remove(i);
+            variants.push((v.iter().collect(), "delete"));
+            variants.push((base[..i].iter().collect(), "truncate"));
+        }
+        for c in EDIT_CHARS {
+            let mut v = base.clone();
+            v.insert(i, c);
+            variants.push((v.iter().collect(), if c == '\n' { "insert-line-break" } else { "insert" }));
+            if i < base.len() {
+                let mut v = base.clone();
+                v[i] = c;
+                variants.push((v.iter().collect(), if c == '\n' { "replace-by-line-break" } else { "replace" }));
+            }
+        }
+    }
+    // two edits: a line break at one place and any edit character at another
+    for i in 0..=base.len() {
+        for j in 0..=base.len() {
+            for c in EDIT_CHARS {
+                let mut v = base.clone();
+                v.insert(j, c);
+                v.insert(i, '\n');
+                variants.push((v.iter().collect(), "insert-line-break-and-insert"));
+            }
+        }
+    }
+    for (src, how) in variants {
+        let got = real::eval(&src, &[("x", crate::val::V::Int(1))]);
+        acc.eval();
+        match &got {
+            Outcome::CompileFail { line, col, .. } => {
+                acc.class("syntax-error");
+                acc.nontrivial(&src);
+                let s = Src::new(&src);
+                let ok = *line < s.lines.len() && *col <= s.lines[*line].len();
+                if !ok {
+                    acc.violation(
+                        &format!("syntax-error-location-outside-the-source [character edit: {}]", how),
+                        json!({"src": src, "edited_from": LITERAL_SOURCES[idx as usize]}),
+                        format!("line < {} and column <= the length of that line", s.lines.len()),
+                        format!("line {}, column {} ({})", line, col, got.show()),
+                    );
+                }
+            }
+            Outcome::Panic { .. } => acc.violation(
+                &format!("compile panic on an edited source [character edit: {}]", how),
+                json!({"src": src, "edited_from": LITERAL_SOURCES[idx as usize]}),
+                "a syntax error".into(),
+                got.show(),
+            ),
+            _ => acc.class("still-valid"),
+        }
+    }
+    if acc.wants_sample() {
+        acc.sample(json!({"source": LITERAL_SOURCES[idx as usize], "edits": "every deletion, truncation, insertion and replacement of one character by each of 14 characters; plus a line break at every place combined with every insertion"}));
+    }
+}
+
 pub fn replay_families(t: Tier) -> Vec<Family<'static>> {
     let sp: &'static Space = Box::leak(Box::new(Space::new(t)));
     vec![
         Family::new("spans", sp.span_size(), move |i, a| sp.run_spans(i, a)),
         Family::new("error-locations", sp.edit_size(), move |i, a| sp.run_edits(i, a)),
+        Family::new("character-edits", char_edit_size(), run_char_edits),
     ]
 }
 
@@ -467,12 +566,13 @@ pub fn run(t: Tier) -> i32 {
     let mut rep = Report::new(ID, t, "exploration");
     let sp = Space::new(t);
     rep.rule = format!(
-        "spans: {} token sequences (every flat operator sequence with <= {} operators over 16 symbols, plain and with each of 29 prefix/postfix decorations on one operand, operands partly replaced by string literals with 2- and 4-byte characters; plus 30 structural sources: lists, maps, calls, chains, nested ?:, match arms, macros, literals of every kind) x 6 whitespace policies (none, blank, two blanks, newline, tab, mixed) x 4 paddings (none, blanks, newlines around, trailing newline): every expression node (all grammar levels, call/index/list/map children, match scrutinee and arms; not match patterns) must have a span inside the source, inside its parent, disjoint from its siblings, the root must span the trimmed source, and the spanned text compiled on its own must give the same canonical subtree; every token span must be increasing, non-overlapping and re-lex to the same single token. error-locations: every single-token deletion, duplication, replacement by each of 12 tokens and every truncation of those sequences in 3 layouts: a reported syntax-error location must have line < number of lines and column <= the length of that line. Non-trivial = every compiled source / every rejected edit",
+        "spans: {} token sequences (every flat operator sequence with <= {} operators over 16 symbols, plain and with each of 29 prefix/postfix decorations on one operand, operands partly replaced by string literals with 2- and 4-byte characters; plus 30 structural sources: lists, maps, calls, chains, nested ?:, match arms, macros, literals of every kind) x 6 whitespace policies (none, blank, two blanks, newline, tab, mixed) x 4 paddings (none, blanks, newlines around, trailing newline): every expression node (all grammar levels, call/index/list/map children, match scrutinee and arms; not match patterns) must have a span inside the source, inside its parent, disjoint from its siblings, the root must span the trimmed source, and the spanned text compiled on its own must give the same canonical subtree; every token span must be increasing, non-overlapping and re-lex to the same single token. error-locations: every single-token deletion, duplication, replacement by each of 12 tokens and every truncation of those sequences in 3 layouts: a reported syntax-error location must have line < number of lines and column <= the length of that line. character-edits: 22 sources whose tokens have an inner structure (hex, unicode and octal escapes in strings and bytes, raw and triple-quoted strings, f-string holes, hex/exponent/suffixed numbers) under every deletion, truncation, insertion and replacement of one character by each of 14 characters (line break, blank, quotes, backslash, x, u, g, 4, braces, ...) and every pair (line break at any place, insertion at any place): same oracle, and no panic. Non-trivial = every compiled source / every rejected edit",
         sp.n_sources(),
         t.pick(1, 2)
     );
     rep.run_family(Family::new("spans", sp.span_size(), |i, a| sp.run_spans(i, a)));
     rep.run_family(Family::new("error-locations", sp.edit_size(), |i, a| sp.run_edits(i, a)));
+    rep.run_family(Family::new("character-edits", char_edit_size(), run_char_edits));
     rep.assumptions = vec![
         "lines and columns count characters from 0 as the scanner defines them; a column equal to the line length is the position at the end of the line".into(),
         "spans of match patterns and of the auxiliary !/- list nodes are excluded (the statement excludes the former; the latter are not expressions)".into(),
